@@ -117,6 +117,8 @@ def derived_pass(ctx):
 def run(ctx):
     common.use_repo()
     derived_pass(ctx)
+    from . import crossworld
+    crossworld.deletion_pass(ctx)
     n = 150 if ctx.quick() else 2500
     nops = 22 if ctx.quick() else 35
     ctx.rule = (f'{n} generated trigger-free histories (<= {nops} mutations; every metamodel has at least one reference without '
